@@ -1,0 +1,9 @@
+//go:build verif && linux
+
+package fuse
+
+import "bazil.org/fuse/fs"
+
+// VerifRoot returns the root node of the file system (its methods can be
+// called without mounting).
+func VerifRoot() fs.Node { return root(0) }
